@@ -63,6 +63,10 @@ class Theory:
         self.str_concat = z3.Function("val_str_concat", Vl, Vl, Vl)
         self._str_consts = {}
         self._isinst = {}
+        # a tuple of opaque values as an opaque value: a function of its items (equal items, equal tuple)
+        VA = z3.ArraySort(z3.IntSort(), Vl)
+        self.val_tuple = z3.Function("val_tuple", VA, z3.IntSort(), Vl)
+        self._tuple_diff = z3.Function("val_tuple_diff", VA, VA, z3.IntSort(), z3.IntSort())
 
     def str_const(self, s):
         """The opaque value standing for the string constant `s`."""
@@ -83,7 +87,16 @@ class Theory:
             z3.ForAll([a, b], z3.And(self.item(self.pack2(a, b), 0) == a, self.item(self.pack2(a, b), 1) == b), patterns=[self.pack2(a, b)]),
             z3.ForAll([a, b, c], z3.And(self.item(self.pack3(a, b, c), 0) == a, self.item(self.pack3(a, b, c), 1) == b, self.item(self.pack3(a, b, c), 2) == c), patterns=[self.pack3(a, b, c)]),
             z3.ForAll([n], self.unbox_int(self.box_int(n)) == n, patterns=[self.box_int(n)]),
+            self._tuple_ext(),
         ]
+
+    def _tuple_ext(self):
+        VA = z3.ArraySort(z3.IntSort(), V.Val)
+        a, b = z3.Consts("ta tb", VA)
+        n = z3.Int("tn")
+        d = self._tuple_diff(a, b, n)
+        return z3.ForAll([a, b, n], z3.Or(self.val_tuple(a, n) == self.val_tuple(b, n), z3.And(d >= 0, d < n, z3.Select(a, d) != z3.Select(b, d))),
+                         patterns=[z3.MultiPattern(self.val_tuple(a, n), self.val_tuple(b, n))])
 
     @staticmethod
     def _num(t):
